@@ -195,6 +195,20 @@ def spec_eval(T, mode, pres, call, res, st):
                 want = want.inter(G.BS(False, (1 << 256) - 1))      # the scripted kernel's cpumask buffer (os nrcpus)
             if not G.BS.parse(res["set"]).eq(want):
                 bad.append(("cpubind-readback:" + cmd, "%s reports %s, the kernel reported %s (complete cpuset %s)" % (cmd, res["set"], st["aff"].text(), T.ccs.text())))
+    # (g3) last cpu location from a scripted /proc/<tid>/stat: field 39 (after the LAST ')'), whatever the task name
+    if mode == "os" and T.this and cmd in ("glcl", "gplcl") and st.get("stat") is not None and any(e[0] == "stat" for e in res["events"]):
+        txt = st["stat"]
+        want = None
+        i = txt.rfind(b")")
+        if i >= 0:
+            f = txt[i + 2:].split(b" ")
+            if len(f) > 36 and f[36].strip().isdigit():
+                want = int(f[36])
+        if want is None:
+            if res["rc"] == 0:
+                bad.append(("lastcpu-parse:" + cmd, "malformed stat %r but rc=0 set=%s" % (txt[:60], res["set"])))
+        elif res["rc"] != 0 or res["set"] != G.BS(False, 1 << want).text():
+            bad.append(("lastcpu-parse:" + cmd, "stat %r says processor %d but rc=%d set=%s" % (txt[:40], want, res["rc"], res["set"])))
     # (h) MIGRATE: the source mask handed to migrate_pages must cover every node of the topology
     if mode == "os":
         for ev in res["events"]:
@@ -210,7 +224,7 @@ MASK_LAST = re.compile(r" set=\S+")
 
 def canon(line, call, T, mode, st):
     """results that depend on the real /proc of the sandbox are not compared"""
-    if call and mode == "os" and T is not None and T.this and line.startswith("R rc=0"):
+    if call and mode == "os" and T is not None and T.this and line.startswith("R rc=0") and st.get("stat") is None:
         if (call["cmd"] == "glcl" and (st.get("getcpu_fail") or not (call["flags"] & 2 and not call["flags"] & 1))) or call["cmd"] == "gplcl":
             return MASK_LAST.sub(" set=*", line, 1)
     return line
@@ -255,6 +269,8 @@ class Evaluator:
                     st["mempol"] = G.BS.parse(t[3])
                 if t[0] == "os" and t[1] == "aff":
                     st["aff"] = G.BS.parse(t[2])
+                if t[0] == "os" and t[1] == "stat":
+                    st["stat"] = None if t[2] == "-" else (b"" if t[2] == "empty" else bytes.fromhex(t[2]))
                 if t[0] == "os" and t[1] == "ret" and t[2] in ("getcpu", "all"):
                     st["getcpu_fail"] = int(t[3]) < 0
                 continue
@@ -419,6 +435,16 @@ def build_scripts(run, exe):
                     mt = G.BS(False, m).text()
                     s += ["os aff " + mt, "gtcbo 0", "gtcb 0", "gcb 2", "gpcb 0 2", "stcbo %s 0" % mt, "stcb %s 0" % mt]
                 s += G.gen_os_state(rng)
+            if proc == 0 and T.this:
+                # last cpu location through /proc/<tid>/stat (interposed openat) with hostile task names: the field
+                # that is read must be field 39 whatever the name holds
+                pus = [i for i in range(T.ccs.fin.bit_length()) if T.ccs.mem(i)]
+                s += ["os ret all 0 0", "os ret getcpu -1 ENOSYS"]
+                for k, nm in enumerate(G.HOSTILE_NAMES):
+                    pu = pus[(k * 5 + 1) % len(pus)]
+                    s += ["os stat " + G.stat_line(4242, nm, pu).hex(), "glcl 0", "glcl 1", "glcl 2", "gplcl self 0", "gplcl self 2", "gplcl 0 2"]
+                s += ["os stat " + b"4242 (x".hex(), "glcl 0", "os stat " + b"4242 (x) S 1 2".hex(), "gplcl self 2", "os stat empty", "glcl 1", "os stat -"]
+                s += G.gen_os_state(rng)
             if proc == 0:
                 # the membind stream: whole-topology / covering / just-short sets on every set-like entry point, by
                 # cpuset and BY NODESET, through the installed hooks and through all-present spy hooks
@@ -543,7 +569,19 @@ def live_part(run, live):
         mt = G.BS(False, m).text()
         script += ["ot %s 0" % mt, "tp %s 0" % mt, "cp %s 0" % mt, "cp %s 2" % mt]
         nother += 4
-    script += ["destroy"]
+    # last cpu location under hostile TASK NAMES (prctl(PR_SET_NAME)): calling thread, parked worker, parked child
+    s1 = G.BS(False, (1 << cpus[0]) | (1 << cpus[1 % n]))
+    s2 = G.BS(False, 1 << cpus[n // 2])
+    s3 = G.BS(False, (1 << cpus[-1]) | (1 << cpus[-2 % n]))
+    script += ["rt %s 2" % s1.text(), "ot %s 0" % s2.text(), "cp %s 0" % s3.text()]
+    nrt_extra, nother = 1, nother + 2
+    nlcl = 0
+    for nm in G.HOSTILE_NAMES:
+        h = nm.hex() or "-"
+        script += ["taskname main " + h, "taskname worker " + h, "taskname child " + h,
+                   "lcl main 0", "lcl main 1", "lcl main 2", "lcl mainproc 0", "lcl mainproc 2", "lcl worker 0", "lcl child 0", "lcl child 2"]
+        nlcl += 8
+    script += ["taskname main " + b"hwv_bind".hex(), "destroy"]
     # binding through a FOREIGN topology, its duplicate and a duplicate of that must not touch the real affinity
     for c in cpus[:16]:
         script.append("foreigndup %d pu:%d" % (c, max(cpus) + 1))
@@ -555,7 +593,7 @@ def live_part(run, live):
     if rc != 0:
         run.violation("live-crash", "live harness failed rc=%d" % rc, "kind: live\nscript:\n%s\nend-script\n%s" % ("\n".join(script[:50]), err.decode(errors="replace")[-2000:]))
         return
-    nrt = nload = nthr = nfor = noth = 0
+    nrt = nload = nthr = nfor = noth = ncl = 0
     x86_seen = False
     affs = []
     for l in ol:
@@ -602,6 +640,17 @@ def live_part(run, live):
                 run.violation("live-roundtrip-other:" + kv["kind"], "bind / read back / last location of another %s disagree: %s" % (
                     {"ot": "thread (pthread_t)", "tp": "thread (tid, HWLOC_CPUBIND_THREAD)", "cp": "process (child pid)"}[kv["kind"]], l),
                     "kind: live\nscript:\nnew\nsrc native\nload\n%s %s %s\nend-script\n%s\n" % (kv["kind"], want, kv["flags"], l))
+        elif l.startswith("C "):
+            kv = dict(f.split("=", 1) for f in l.split()[1:])
+            ncl += 1
+            lim = {"main": s1 if kv["flags"] == "2" else s1.union(s2), "mainproc": s1 if kv["flags"] == "2" else s1.union(s2), "worker": s2, "child": s3}[kv["target"]]
+            run.count(l + "|%d" % ncl, nontrivial=True, kind="live:lastcpu-" + kv["target"], sample={"live": l})
+            got = G.BS.parse(kv["last"])
+            if kv["rc"] != "0" or got.is_empty() or not got.subset(lim):
+                nm = G.HOSTILE_NAMES[(ncl - 1) // 8]
+                run.violation("live-last-cpu-location:" + kv["target"], "task name %r: last cpu location %s (rc=%s) is not inside the binding %s: %s" % (nm, kv["last"], kv["rc"], lim.text(), l),
+                              "kind: live\nscript:\nnew\nsrc native\nload\nrt %s 2\not %s 0\ncp %s 0\ntaskname main %s\ntaskname worker %s\ntaskname child %s\nlcl %s %s\nend-script\n%s\n" % (
+                                  s1.text(), s2.text(), s3.text(), nm.hex() or "-", nm.hex() or "-", nm.hex() or "-", kv["target"], kv["flags"], l))
         elif l.startswith("F "):
             kv = dict(f.split("=", 1) for f in l.split()[1:])
             nfor += 1
@@ -614,8 +663,8 @@ def live_part(run, live):
     if len(affs) < 4 or affs[-1] != orig.text() or affs[1] != nontrivial.text() or affs[2] != nontrivial.text():
         run.violation("live-restore", "affinity sequence %r (original %s, test binding %s)" % (affs, orig.text(), nontrivial.text()), "kind: live\n" + "\n".join(ol[-12:]))
     run.cov["live"] = {"observed_not_proved": True, "allowed_cpus": n, "exhaustive_subsets": exhaustive, "round_trips": nrt,
-                       "load_checks": nload, "threaded_load_checks": nthr, "foreign_dup_checks": nfor, "other_thread_and_child_round_trips": noth, "x86_backend_exercised": x86_seen, "original_affinity_restored": bool(affs) and affs[-1] == orig.text()}
-    if nrt != len(subsets) or nload < 6 or nthr != nthread or noth != nother:
+                       "load_checks": nload, "threaded_load_checks": nthr, "foreign_dup_checks": nfor, "other_thread_and_child_round_trips": noth, "last_cpu_location_under_hostile_names": ncl, "x86_backend_exercised": x86_seen, "original_affinity_restored": bool(affs) and affs[-1] == orig.text()}
+    if nrt != len(subsets) + nrt_extra or nload < 6 or nthr != nthread or noth != nother or ncl != nlcl:
         run.violation("live-incomplete", "live part produced %d round trips (wanted %d) and %d load checks" % (nrt, len(subsets), nload), "kind: live\n" + "\n".join(ol[-8:]), no_input=True)
 
 
